@@ -2,6 +2,7 @@ package impl
 
 import (
 	"bytes"
+	"fmt"
 	"reflect"
 
 	"github.com/trustbloc/sidetree-go/pkg/api/operation"
@@ -17,6 +18,12 @@ func init() {
 }
 
 func stackFor(c *proto.Case) *stack {
+	if Shared {
+		tv, _ := c.Body["tv_fail"].(bool)
+		ov, _ := c.Body["ov_fail"].(bool)
+		key := fmt.Sprintf("stack|%s|%v|%v", proto.Marshal(c.Body["cfg"]), tv, ov)
+		return shared(key, func() interface{} { return newSharedStack(Protocol(c.Body["cfg"]), tv, ov) }).(*stack)
+	}
 	s := newStack(Protocol(c.Body["cfg"]))
 	if b, ok := c.Body["tv_fail"].(bool); ok {
 		s.tv.fail = b
